@@ -1,5 +1,6 @@
 (* Executable entry points for the C03 correspondence. *)
 From Coq Require Import ZArith Bool List.
+From TS Require Model.CurveFill.
 From TS Require Import Base.F32 Model.Rect Model.PathBuilder Model.Conic Model.RunC14 Model.IntRect Model.Edge Model.Walk
   Model.AlphaRuns Model.SuperBlit Model.RectRound.
 Import ListNotations.
@@ -82,7 +83,7 @@ Definition run_aa_spans (l : list Z) : list Z :=
                   let contained := (0 <=? ix ir) && (0 <=? iy ir) && (ir_right ir <=? w) && (ir_bottom ir <=? h) in
                   if negb contained || (8191 <? w) || (8191 <? h) then [-9]
                   else
-                    match build_edges p 2 with
+                    match CurveFill.build_edges_curves p 2 with
                     | None => [-1]
                     | Some None => []
                     | Some (Some es) =>
